@@ -27,6 +27,7 @@ THEOREMS = [
  'C01.getChannel_touch', 'C01.checkCapability_congr', 'C01.checkCapability_touch', 'C01.gate_touch',
  'C01.converter_guard', 'C01.converter_guard_noowner', 'C01.converter_guard_chan', 'C01.chancap_first_channel',
  'C01.invoke_body_requires', 'C01.owner_plugin_body_needs_owner', 'C01.guarded_body_needs_capability',
+ 'C01.site_msg_is_current', 'C01.site_msg_scheduled', 'C01.scheduled_owner_command_refused', 'C01.trigger_runs_with_speakers_authority',
  'C01.ignored_silent', 'C01.dispatch_requires_not_ignored', 'C01.ignore_flag_ignored', 'C01.ignores_db_ignored',
  'C01.channel_ignored_silent', 'C01.received_dispatch_requires', 'C01.channel_ban_ignored', 'C01.trusted_never_ignored',
  'C01.config_write_guard', 'C01.readonly_never_written',
@@ -1087,7 +1088,7 @@ def explore(ctx, b, w, table, required, n_extra):
                                                                    enc_spec(vt_spec), 1 if vt_ae else 0, wire.enc_list([])))
             def fillr(o, ign):
                 so = SITE_OUT[0]
-                if so in (None, 'none', 'bad-op'):
+                if so in (None, 'none', 'bad-op') or ign.startswith('1') or ign.startswith('crash'):
                     return 'not-dispatched'
                 f = o.split('\t'); i = f.index('|'); g = f[:i]; oc = f[i + 1:]
                 sf = so.split('\t')
@@ -1149,8 +1150,8 @@ def explore(ctx, b, w, table, required, n_extra):
         # ---- MessageParser: the stored action runs with the SPEAKER's message ----
         if 'MessageParser' in have:
             added_plain = classify(deliver(b, ROLES['plain'], CHAN, '@messageparser add vtmagic vtowner'))
-            c0 = Case({'op': 'redispatch', 'label': 'trigger-add-plain'}, impl=added_plain[0], model='nocap', kind='redispatch',
-                      oracle_ok=(added_plain[0] == 'nocap'), oracle_msg='a plain user added a MessageParser trigger: %r' % (added_plain,),
+            c0 = Case({'op': 'redispatch', 'label': 'trigger-add-plain'}, impl='refused' if added_plain[0] in ('nocap', 'error') else added_plain[0],
+                      model='refused', kind='redispatch', oracle_ok=(added_plain[0] in ('nocap', 'error')), oracle_msg='a plain user added a MessageParser trigger: %r' % (added_plain,),
                       tags=['redispatch', 'rd:trigger-add-plain', 'oracle:deny'])
             cases.append(c0)
             added = classify(deliver(b, ROLES['chanop'], CHAN, '@messageparser add vtmagic vtowner'))
